@@ -1384,7 +1384,8 @@ struct RtHarness : Harness
                 }
                 // a device that refuses to start (C07/C08: the runtime must
                 // stay stoppable and reusable)
-                if ((abort_prof || prog_prof) && !last && g.chance(0.08)) {
+                if ((abort_prof || prog_prof || avg_prof) && !last &&
+                    g.chance(0.08)) {
                     if (g.chance(0.5))
                         sc[s].cs.fail_start = 1;
                     else
